@@ -501,10 +501,45 @@ pub fn c06_case(seed: u64, idx: u64) -> CaseOut {
         0 => Vec::new(),
         _ => junk(&mut r, 400),
     };
-    let suf = match r.below(3) {
+    let mut suf = match r.below(3) {
         0 => Vec::new(),
         _ => junk(&mut r, 200),
     };
+    if kind == 3 && r.chance(1, 2) {
+        // D15: what follows the run looks like an IDAT chunk but is not one of the run
+        // (empty, CRC mismatch, length past the end) or is the usual IEND
+        let mut head: Vec<u8> = Vec::new();
+        match r.below(4) {
+            0 => {
+                head.extend_from_slice(&0u32.to_be_bytes());
+                head.extend_from_slice(b"IDAT");
+                let crc = if r.chance(1, 2) { crc32fast::hash(b"IDAT") } else { r.next() as u32 };
+                head.extend_from_slice(&crc.to_be_bytes());
+            }
+            1 => {
+                let body = junk(&mut r, 40);
+                head.extend_from_slice(&(body.len() as u32).to_be_bytes());
+                head.extend_from_slice(b"IDAT");
+                head.extend_from_slice(&body);
+                let mut h = crc32fast::Hasher::new();
+                h.update(b"IDAT");
+                h.update(&body);
+                head.extend_from_slice(&(h.finalize() ^ (1 << r.below(32))).to_be_bytes());
+            }
+            2 => {
+                head.extend_from_slice(&(r.range(1000, 100000) as u32).to_be_bytes());
+                head.extend_from_slice(b"IDAT");
+                suf.truncate(100);
+            }
+            _ => {
+                head.extend_from_slice(&0u32.to_be_bytes());
+                head.extend_from_slice(b"IEND");
+                head.extend_from_slice(&crc32fast::hash(b"IEND").to_be_bytes());
+            }
+        }
+        head.extend_from_slice(&suf);
+        suf = head;
+    }
     let mut f = pre.clone();
     f.extend_from_slice(&w);
     f.extend_from_slice(&suf);
